@@ -33,14 +33,25 @@ def run(ctx):
     for cls in ("HypergraphMT", "HySC"):
         with res.guard("check_self_attrsctx, res, cls"):
             check_self_attrs(ctx, res, cls)
-        n = check_external_methods(ctx, res, cls, ("self.incidence", "self.binary_incidence"), "scipy.sparse", "csr_array")
-        if n < 3:
-            raise AnalysisError(f"{cls}: only {n} uses of the sparse incidence found")
+        with res.guard(f"C-EXT on the sparse incidence of {cls}"):
+            n = check_external_methods(ctx, res, cls, ("self.incidence", "self.binary_incidence"), "scipy.sparse", "csr_array")
+            if n < 3:
+                raise AnalysisError(f"{cls}: only {n} uses of the sparse incidence found")
     # ---- HypergraphMT seeding
     with res.guard("HypergraphMT seeding"):
         ss = ctx.view("HypergraphMT._set_seed")
         gens = [n for n in ast.walk(ss.fi.node) if isinstance(n, ast.Call) and R.extern_name(ctx.prog, ss.fi, n) in ("numpy.random.RandomState", "numpy.random.default_rng")]
-        res.check(bool(gens) and all(g.args and norm(g.args[0]) == "seed" for g in gens), "R-SEEDED", ss.fi.short, norm(gens[0]) if gens else "np.random.RandomState(seed)", "from-seed", "the generator is not constructed from the seed", loc(ss.fi, ss.fi.node))
+        if not gens:
+            res.unknown("R-SEEDED", ss.fi.short, "np.random.RandomState(seed)", "from-seed", "no generator construction recognised", loc(ss.fi, ss.fi.node))
+        for g in gens:
+            arg = g.args[0] if g.args else next((k.value for k in g.keywords if k.arg == "seed"), None)
+            e = ss.inline(arg) if arg is not None else None
+            # `self.seed` counts when it is assigned from the parameter in this very function
+            if e is not None and is_self_attr(e):
+                st_ = [n for n in ast.walk(ss.fi.node) if isinstance(n, ast.Assign) and is_self_attr(n.targets[0], e.attr)]
+                e = ss.inline(st_[-1].value) if st_ else e
+            from_seed = e is not None and "seed" in {x.id for x in ast.walk(e) if isinstance(x, ast.Name)}
+            res.add("R-SEEDED", ss.fi.short, norm(g), "from-seed", "ok" if from_seed else ("violation" if arg is None or isinstance(e, ast.Constant) else "unknown"), "" if from_seed else "the generator is not constructed from the seed", loc(ss.fi, g))
         st = [n for n in ast.walk(ss.fi.node) if isinstance(n, ast.Assign) and is_self_attr(n.targets[0], "prng")]
         res.check(bool(st), "R-SEEDED", ss.fi.short, "self.prng = ...", "stored", "the seeded generator is not stored as self.prng", loc(ss.fi, ss.fi.node))
         with res.guard("M.check_none_testsctx, res, HypergraphMT._set_seed, paramsseed,"):
@@ -119,8 +130,16 @@ def run(ctx):
                     iso[n.targets[0].attr] = n.value
             if set(iso) != {"isolates", "non_isolates"}:
                 raise AnalysisError(f"{v.fi.short}: isolates / non_isolates definition not found")
-            a, b = norm(iso["isolates"]), norm(iso["non_isolates"])
-            res.check("== 0" in a and "!= 0" in b and a.replace("== 0", "X") == b.replace("!= 0", "X"), "I-ISOL", v.fi.short, a, "complementary", "isolates and non_isolates are not the zero / non-zero rows of the same count vector", loc(v.fi, v.fi.node))
-            res.check("self.incidence" in a or "self.binary_incidence" in a, "I-ISOL", v.fi.short, a, "from-incidence", "isolated nodes are not detected from the incidence matrix", loc(v.fi, v.fi.node))
+            a, b = norm(v.inline(iso["isolates"])), norm(v.inline(iso["non_isolates"]))
+            if "== 0" in a and "!= 0" in b:
+                res.check(a.replace("== 0", "X") == b.replace("!= 0", "X"), "I-ISOL", v.fi.short, a, "complementary", "isolates and non_isolates are not the zero / non-zero rows of the same count vector", loc(v.fi, v.fi.node))
+            elif "!= 0" in a and "== 0" in b:
+                res.violation("I-ISOL", v.fi.short, a, "complementary", "isolates are the NON-zero rows and non_isolates the zero rows: the two sets are exchanged", loc(v.fi, v.fi.node))
+            else:
+                res.unknown("I-ISOL", v.fi.short, a, "complementary", "zero / non-zero tests of the count vector not recognised", loc(v.fi, v.fi.node))
+            if "self.incidence" in a or "self.binary_incidence" in a:
+                res.ok("I-ISOL", v.fi.short, a, "from-incidence", loc(v.fi, v.fi.node))
+            else:
+                res.add("I-ISOL", v.fi.short, a, "from-incidence", "violation" if "get_nodes" in a or "degree" in a else "unknown", "isolated nodes are not detected from the incidence matrix", loc(v.fi, v.fi.node))
     res.assumptions += ["scipy.sparse.csr_array is introspected on a 1x1 instance of the installed library (trusted base)", "sklearn KMeans with a fixed random_state is deterministic (library)"]
     return res
